@@ -104,11 +104,50 @@ def engine(res, spec, tier, seed, extended=False):
                 res.add_found('run_depends_on_hash_seed', detail, {'engine': 'eng_c01', 'scenario': sc, 'seeds': [seeds[0], s], 'steps': step + 1,
                                                                     'kind': 'run_depends_on_hash_seed', 'detail': detail})
                 break
-    res.notes['eng_c01'] = {'scenarios': [os.path.basename(s) for s in scens], 'hash_seeds': seeds, 'steps': steps, 'wall_s': round(time.time() - t0, 1)}
+    # the driver model's own decisions under ties (human drivers looking for the densest request cell when several cells tie): one
+    # step of small worlds in fresh processes under the same hash seeds
+    n_tie = 16 if tier == 'quick' else 120
+    ties = {}
+    for s in seeds:
+        ties[s] = run_ties(seed, 0, n_tie, s)
+        if ties[s] is None:
+            res.add_broken('harness', f'tie worlds could not be run (PYTHONHASHSEED={s})', None)
+    b0 = ties.get(seeds[0])
+    if b0 is not None:
+        res.cov['evaluations'] += n_tie * len(seeds)
+        for s in seeds[1:]:
+            o = ties.get(s)
+            if o is None:
+                continue
+            diff = [(a, b) for a, b in zip(b0, o) if a[1] != b[1]]
+            if diff and not [f for f in res.found if f['kind'] == 'run_depends_on_hash_seed']:
+                a, b = diff[0]
+                detail = {'tie_world': a[0], 'hash_seeds': [seeds[0], s], 'vehicles_after_one_step': {str(seeds[0]): a[2], str(s): b[2]}, 'worlds_that_differ': len(diff)}
+                res.add_found('run_depends_on_hash_seed', detail, {'engine': 'eng_c01', 'tie': True, 'seed': seed, 'world': a[0], 'seeds': [seeds[0], s],
+                                                                    'kind': 'run_depends_on_hash_seed', 'detail': detail})
+    res.notes['eng_c01'] = {'scenarios': [os.path.basename(s) for s in scens], 'hash_seeds': seeds, 'steps': steps, 'tie_worlds': n_tie, 'wall_s': round(time.time() - t0, 1)}
+
+def run_ties(seed, k0, n, hash_seed):
+    env = dict(os.environ, PYTHONHASHSEED=str(hash_seed), HIVE_REPO=REPO, PYTHONPATH=REPO)
+    try:
+        p = subprocess.run([PY, '-W', 'ignore', os.path.join(VERIF, 'harness/tie_run.py'), str(seed), str(k0), str(n)], capture_output=True, text=True, timeout=900, env=env, cwd='/var/tmp')
+    except subprocess.TimeoutExpired:
+        return None
+    lines = [l for l in p.stdout.strip().split('\n') if l.startswith('[')]
+    if p.returncode != 0 or not lines:
+        return None
+    return json.loads(lines[-1])
 
 def replayer(payload):
     if payload.get('engine') != 'eng_c01':
         return None
+    if payload.get('tie'):
+        a = run_ties(payload['seed'], payload['world'], 1, payload['seeds'][0]); b = run_ties(payload['seed'], payload['world'], 1, payload['seeds'][1])
+        if a is None or b is None:
+            return None
+        if a[0][1] != b[0][1]:
+            print('reproduced:', json.dumps({'world': payload['world'], str(payload['seeds'][0]): a[0][2], str(payload['seeds'][1]): b[0][2]}))
+        return a[0][1] != b[0][1]
     sc, (sa, sb), steps = payload['scenario'], payload['seeds'], payload['steps']
     if not os.path.exists(sc):
         import gen_scenario
